@@ -43,8 +43,17 @@ var unrelatedDoc = func() interface{} {
 }()
 
 // unrelated Parse/Retrieve activity that takes and returns pooled result containers and key slices
+var bigArray = func() interface{} {
+	a := make([]interface{}, 300)
+	for i := range a {
+		a[i] = float64(i)
+	}
+	return a
+}()
+
 func unrelatedActivity() {
 	cfg := modelConfig(nil, false)
+	jsonpath.Retrieve(`$[*]`, bigArray) // more than 256 results: buffers beyond the usual sizes
 	for _, p := range []string{`$..*`, `$.l[?(@.a == $.x)]`, `$.l[0].b[*]`, `$.zz.*`, `$.l[*].a.g1()`, `$.l[?(@.b[?(@ > 30)])]`, `$.nosuch[`, `$.l[?(@.a == 1)].x`} {
 		jsonpath.Retrieve(p, unrelatedDoc, cfg)
 	}
@@ -72,7 +81,8 @@ func (w *worker) runHist(c *histCase, raw []byte) {
 	w.count("cases", 1)
 	w.count(fmt.Sprintf("history-length:%d", len(c.Ops)), 1)
 	sig := stepKinds(c.Path.Steps)
-	for _, m := range []Mode{{}, {Number: true}} {
+	for pass, m := range []Mode{{}, {Number: true}, {}} {
+		mixed := pass == 2 // third pass: consecutive calls alternate between the two number decodings
 		cfg := modelConfig(nil, false)
 		pr := safeParse(text, &cfg)
 		if pr.Panic != nil || pr.Err != nil {
@@ -100,6 +110,9 @@ func (w *worker) runHist(c *histCase, raw []byte) {
 				}
 				w.count("C05:scribbles", 1)
 			case "call":
+				if mixed {
+					m = Mode{Number: oi%2 == 0}
+				}
 				doc := c.Docs[op.D-1].ToGo(m)
 				before := snap(doc)
 				r := safeCall(pr.F, doc)
